@@ -2,6 +2,10 @@
 #include "hv.h"
 #include "topo.h"
 #include "hist.h"
+#include <hwloc/shmem.h>
+#include <sys/mman.h>
+#include <sys/wait.h>
+#include <unistd.h>
 
 const char *hv_property = "C13";
 unsigned hv_batch = 6;
@@ -307,6 +311,62 @@ static void op_transform(hwloc_topology_t t)
   for (unsigned i = 0; i < nb; i++) hwloc_obj_set_subtype(t, objs[i], NULL);
 }
 
+/* everything hwloc_distances_get() returns, folded into one number (names are reached through pointers stored in the structure) */
+static uint64_t dist_digest(hwloc_topology_t t)
+{
+  uint64_t h = 13; unsigned nr = 0; hwloc_distances_get(t, &nr, NULL, 0, 0);
+  struct hwloc_distances_s **d = calloc(nr + 1, sizeof *d); unsigned n2 = nr; hwloc_distances_get(t, &n2, d, 0, 0);
+  h = hv_hash_u64(n2, h);
+  for (unsigned i = 0; i < n2 && i < nr; i++) { const char *nm = hwloc_distances_get_name(t, d[i]); h = hv_hash_str(nm ? nm : "(unnamed)", h); h = hv_hash_u64(d[i]->kind, h); h = hv_hash_u64(d[i]->nbobjs, h);
+    for (unsigned k = 0; k < d[i]->nbobjs; k++) { h = hv_hash_u64(d[i]->objs[k] ? d[i]->objs[k]->gp_index * 32 + (uint64_t)d[i]->objs[k]->type : 7, h); }
+    h = hv_hash_bytes(d[i]->values, (size_t)d[i]->nbobjs * d[i]->nbobjs * sizeof(uint64_t), h);
+    if (nm) { unsigned one = 1; struct hwloc_distances_s *bn = NULL; if (hwloc_distances_get_by_name(t, nm, &one, &bn, 0) == 0 && one && bn) { h = hv_hash_u64(bn->nbobjs, h); hwloc_distances_release(t, bn); } }
+    hwloc_distances_release(t, d[i]); }
+  free(d); return h;
+}
+
+/* terminal carrier: the topology is stored in a shared-memory file and adopted (a) by a process forked before the write, as an unrelated
+ * process would, and (b) by the writer itself; both must return what the model holds */
+static void shmem_carrier(hwloc_topology_t t, uint64_t index)
+{
+  size_t len = 0; hv_ctxkey("carrier:shmem");
+  if (hwloc_shmem_topology_get_length(t, &len, 0) != 0 || !len) { hv_viol("carrier.shmem.get_length", "get_length failed errno %d", errno); return; }
+  int fd = memfd_create("hv-c13", 0); if (fd < 0) hv_fail("memfd_create: %s", strerror(errno));
+  void *addr = (void *)(uintptr_t)(0x300000000000ULL + (index % 256) * 0x40000000ULL);
+  int go[2], res[2]; if (pipe(go) || pipe(res)) hv_fail("pipe");
+  fflush(NULL);
+  pid_t pid = fork();
+  if (pid == 0) { close(go[1]); close(res[0]); char g = 0; if (read(go[0], &g, 1) != 1 || g != 'g') _exit(0);
+    hv_ctxkey("carrier:shmem:other_process");
+    hwloc_topology_t a = NULL; uint64_t out[2] = { 0, 0 };
+    if (hwloc_shmem_topology_adopt(&a, fd, 0, addr, len, 0) != 0 || !a) { out[0] = 1; out[1] = (uint64_t)errno; } else { out[1] = dist_digest(a); hwloc_topology_destroy(a); }
+    if (write(res[1], out, sizeof out) < 0) {}
+    _exit(0); }
+  close(go[0]); close(res[1]);
+  errno = 0;
+  int wr = hwloc_shmem_topology_write(t, fd, 0, addr, len, 0);
+  if (wr != 0 && errno == EBUSY) { hv_stat("carrier.shmem.address_busy", 1); char n = 'n'; if (write(go[1], &n, 1) < 0) {} }
+  else if (wr != 0) { hv_viol("carrier.shmem.write", "shmem write failed errno %d", errno); char n = 'n'; if (write(go[1], &n, 1) < 0) {} }
+  else {
+    char g = 'g'; if (write(go[1], &g, 1) < 0) {}
+    uint64_t got[2] = { 0, 0 }; ssize_t rn = read(res[0], got, sizeof got); int st = 0; waitpid(pid, &st, 0); pid = -1;
+    hwloc_topology_t a = NULL;
+    if (hwloc_shmem_topology_adopt(&a, fd, 0, addr, len, 0) != 0 || !a) hv_viol("carrier.shmem.adopt", "adopt failed errno %d", errno);
+    else {
+      hv_desc("  carrier: shared-memory adoption (%zu bytes)\n", len);
+      model_follow(a); check_model(a, "shmem adoption");
+      uint64_t mine = dist_digest(a);
+      if (rn != (ssize_t)sizeof got || !WIFEXITED(st) || WEXITSTATUS(st)) hv_viol("carrier.shmem.other_process_crashed", "a process forked before the write died while adopting the topology and reading its distances (wait status %#x)", st);
+      else if (got[0]) hv_viol("carrier.shmem.other_process_adopt", "adopt in a process forked before the write failed, errno %llu", (unsigned long long)got[1]);
+      else if (got[1] != mine) hv_viol("carrier.shmem.other_process_differs", "the distances (names, kinds, objects, values) seen by a process forked before the write differ from those seen by the writer");
+      hv_stat("carrier.shmem.adoptions", 1);
+      hwloc_topology_destroy(a);
+    }
+  }
+  if (pid > 0) { int st; waitpid(pid, &st, 0); }
+  close(go[1]); close(res[0]); close(fd);
+}
+
 void hv_case(uint64_t index)
 {
   hv_rng_seed(&R, HV.seed, "c13", index);
@@ -343,6 +403,7 @@ void hv_case(uint64_t index)
     seq = hv_hash_str(what, seq);
     if (!hv_viol_count()) check_model(t, what);
   }
+  if (!hv_viol_count() && hv_chance(&R, 1, 3)) { shmem_carrier(t, index); carriers++; seq = hv_hash_str("shmem", seq); }
   if (!hv_viol_count() && NM >= 2 && carriers) { hv_stat("nontrivial_histories", 1); hv_distinct(1, seq); }
   if (index < 6) hv_sample("%s", hv_desc_get());
   hv_ctxkey("destroy");
